@@ -1,6 +1,7 @@
 """C04 - evaluation results do not depend on scheduling."""
 import json
 import os
+import re
 import subprocess
 import sys
 
@@ -19,7 +20,13 @@ RULE = ("random component graphs made of 1-4 disconnected parts with determinist
         "hash seeds, equals the reference evaluator's values/reports, every body ran exactly as often as "
         "in the serial run, and get_subgraphs yields a partition closed under edges. Non-trivial: >= 2 "
         "sub-graphs and >= 2 distinct linear extensions tried, or a fault whose dependents span >= 2 "
-        "topological levels. Sub-check providers: 1-4 specs built with the real spec_factory factories "
+        "topological levels. Report-rich shapes: about every second graph gets 1-2 extra sink nodes (rules twice as "
+        "likely as component / combiner / condition) with 2-5 required entries drawn with replacement from one "
+        "connected part (+ sometimes an at-least-one list / an optional entry), about every third graph gets a "
+        "required entry of 1-2 nodes repeated; besides the projection the reference evaluator predicts, the complete "
+        "content of every rule response (all dict fields, e.g. the rendered `details` of a skip response, with the "
+        "per-case serial number taken out of component names) and the missing reports as stored (order, repetitions) "
+        "are compared between schedules and between hash seeds. Sub-check providers: 1-4 specs built with the real spec_factory factories "
         "(simple_file text/raw, glob_file, first_file, simple_command +/- keep_rc) over a sandbox directory whose "
         "files are healthy, empty, missing, a directory, or vanish right after the datasource evaluated (so the "
         "datasource succeeds and the lazy load of the shared ContentProvider fails), under 1-2 private archive- "
@@ -40,10 +47,62 @@ ASSUMPTIONS = [
 ]
 
 
+def _add_reporters(draw, case):
+    """Report-rich shapes. The statement names the missing-dependency reports (and a rule's value *is* such a
+    report when its requirements are not met), but in the graphs of vp/dyn.py a report that lists more than one
+    component is rare (1 % of the cases) and one that lists a component twice practically absent. Two generated
+    dimensions, both written the way a user writes them:
+
+    * about every second case gets 1-2 extra sink nodes (rule twice as likely as component / combiner / condition)
+      on top of one connected part, with 2-5 required entries drawn *with replacement* from that part plus now
+      and then an at-least-one list and an optional entry - many requirements over a part in which about half of
+      the nodes have no value;
+    * in about every third case 1-2 existing nodes get one of their required entries repeated at a generated
+      position (what a component type with type-level `requires` gets when the decorator names the same component
+      again: ComponentType concatenates the two lists as they are)."""
+    nodes = case["nodes"]
+    if draw(st.integers(0, 1)) == 0:
+        for _ in range(draw(st.integers(1, 2))):
+            n = len(nodes)
+            comp = list(range(n))        # connected part of every node (edges = declared dependencies)
+            for i, nd in enumerate(nodes):
+                for j in dyn.dep_set(nd):
+                    a, b = comp[i], comp[j]
+                    if a != b:
+                        comp = [a if x == b else x for x in comp]
+            usable = [j for j in range(n) if nodes[j]["t"] != "rule"]
+            if not usable:
+                break
+            root = draw(st.sampled_from(usable))
+            cand = [j for j in usable if comp[j] == comp[root]]
+            t = draw(st.sampled_from(["rule", "rule", "component", "combiner", "condition"]))
+            decl = [["req", j] for j in draw(st.lists(st.sampled_from(cand), min_size=2, max_size=5))]
+            if draw(st.integers(0, 2)) == 0:
+                decl.insert(draw(st.integers(0, len(decl))),
+                            ["grp", draw(st.lists(st.sampled_from(cand), min_size=1, max_size=3, unique=True))])
+            if draw(st.integers(0, 3)) == 0:
+                decl.append(["opt", draw(st.sampled_from(cand))])
+            node = {"t": t, "decl": decl, "fault": draw(st.sampled_from(["ok"] * 5 + ["boom", "skip"])), "multi": 0,
+                    "efaults": ["ok"], "coe": True}
+            if t != "rule":
+                node["val"] = "t"
+            nodes.append(node)
+    if draw(st.integers(0, 2)) == 0:
+        cand = [i for i, nd in enumerate(nodes) if nd["t"] not in ("parser", "regpoint")
+                and any(d[0] == "req" for d in nd["decl"])]
+        for i in (draw(st.lists(st.sampled_from(cand), min_size=1, max_size=2, unique=True)) if cand else []):
+            decl = nodes[i]["decl"]
+            pos = [d for d in decl if d[0] != "opt"]
+            again = draw(st.sampled_from([d for d in pos if d[0] == "req"]))
+            pos.insert(draw(st.integers(0, len(pos))), list(again))
+            nodes[i]["decl"] = pos + [d for d in decl if d[0] == "opt"]
+
+
 @st.composite
 def cases(draw, tier="quick"):
     parts = draw(st.sampled_from([1, 2, 2, 3, 4]))
     case = draw(dyn.graphs(min_nodes=3, max_nodes=12 if tier == "quick" else 16, parts=parts))
+    _add_reporters(draw, case)
     n = len(case["nodes"])
     pick = draw(st.integers(0, 5))
     if pick == 0:
@@ -77,9 +136,39 @@ def _canon_missing(m):
     return [sorted(set(m[0])), sorted(set(tuple(sorted(set(g))) for g in m[1]))]
 
 
+_GEN_NAME = re.compile(r"\b(?:(n|rp)\d+_(?=\d+\b)|(Reg|Impl)\d+\b)")
+
+
+def _scrub(v):
+    """JSON form of a value with the per-case serial number taken out of generated component names
+    (n<serial>_<i> -> n<i>), so that the text a value carries can be compared between processes."""
+    if isinstance(v, str):
+        return _GEN_NAME.sub(lambda m: m.group(1) or m.group(2), v)
+    if isinstance(v, (list, tuple)):
+        return [_scrub(x) for x in v]
+    if isinstance(v, dict):
+        return sorted([_scrub(str(k)), _scrub(x)] for k, x in v.items())
+    if v is None or isinstance(v, (bool, int, float)):
+        return v
+    return _scrub(repr(v))
+
+
+def _whole_value(v):
+    """Everything a rule response carries. norm_value() keeps of a response only what the reference evaluator
+    predicts (type, key, the digest; for a skip the missing components); the response is a dict with further
+    fields - for a skip the rendered report of the missing requirements (`details`), `reason`, `rule_fqdn` -
+    and that dict *is* the component's value in the broker. It is compared between schedules and hash seeds
+    (not with the reference evaluator, which says nothing about the wording)."""
+    from insights.core.plugins import Response
+    if isinstance(v, Response):
+        return [type(v).__name__, _scrub(dict(v))]
+    return None
+
+
 def state_of(b, brokers, shared):
     """Normalised final state over one or several brokers."""
     vals, excs, miss = {}, {}, {}
+    whole, miss_raw = {}, {}
     seen = set()
     for br in brokers:
         if id(br) in seen:
@@ -94,6 +183,9 @@ def state_of(b, brokers, shared):
             if i in vals and not shared:
                 raise Violation("node %d has a value in two sub-graph brokers (duplicated by the split)" % i)
             vals[i] = dyn.to_json(dyn.norm_value(b, v))
+            wv = _whole_value(v)
+            if wv is not None:
+                whole[i] = wv
         for c, lst in br.exceptions.items():
             if not lst:
                 continue
@@ -107,8 +199,25 @@ def state_of(b, brokers, shared):
                 raise Violation("missing dependencies are reported for a component outside the graph: %r" % (c,))
             miss[i] = _canon_missing(([b.index.get(x, repr(x)) for x in m[0]],
                                       [[b.index.get(x, repr(x)) for x in g] for g in m[1]]))
+            # the report as it is stored (entries as listed, repetitions kept); compared between schedules only
+            miss_raw[i] = [[b.index.get(x, repr(x)) for x in m[0]], [[b.index.get(x, repr(x)) for x in g] for g in m[1]]]
     excs = dict((k, sorted(v)) for k, v in excs.items())
-    return {"values": vals, "exceptions": excs, "missing": miss}
+    return {"values": vals, "exceptions": excs, "missing": miss, "responses": whole, "missing_as_stored": miss_raw}
+
+
+def _report_labels(state):
+    """What the reports of a final state exercise: a report (a rule's skip response or a stored missing report)
+    that lists several different components, and one that lists a component more than once."""
+    labels = set()
+    reports = [v[1:3] for v in state["values"].values() if isinstance(v, list) and v and v[0] == "SKIPRESP"]
+    for kind, reps in (("skip-response", reports), ("missing-report", list(state["missing_as_stored"].values()))):
+        for req, groups in reps:
+            for names in [req] + list(groups):
+                if len(set(names)) >= 2:
+                    labels.add(kind + "-lists-several")
+                    if len(set(names)) < len(names):
+                        labels.add(kind + "-repeats-an-entry-among-several")
+    return labels
 
 
 def _calls(b):
@@ -241,8 +350,10 @@ def check(case):
             if state["missing"] != want_miss:
                 raise Violation("schedule %s: missing-dependency reports %r, expected %r" % (label, state["missing"], want_miss))
             if state != base:
-                raise Violation("schedule %s ends in a different state than %s: %r vs %r" % (
-                    label, base_label, state["exceptions"], base["exceptions"]))
+                parts = [k for k in sorted(state) if state[k] != base[k]]
+                raise Violation("schedule %s ends in a different state than %s (%s differ): %r vs %r" % (
+                    label, base_label, "/".join(parts), dict((k, state[k]) for k in parts),
+                    dict((k, base[k]) for k in parts)))
             if calls != base_calls:
                 raise Violation("schedule %s invoked bodies %r, the serial run %r (lost or duplicated work)" % (
                     label, calls, base_calls))
@@ -260,6 +371,7 @@ def check(case):
                   "schedules=%d" % len(results)]
         if spread:
             labels.append("fault-spread")
+        labels.extend(sorted(_report_labels(base)))
         if nontrivial:
             labels.append("nontrivial")
         return {"nontrivial": nontrivial, "labels": labels}
@@ -327,6 +439,7 @@ def check_hashseeds(case):
     seeds = case["hash_seeds"]
     outs = run_children(batch, seeds)
     nontrivial = False
+    hs_labels = set()
     for k, c in enumerate(batch):
         ref = outs[seeds[0]][k]
         for hs in seeds:
@@ -334,14 +447,29 @@ def check_hashseeds(case):
             if not got["ok"]:
                 raise Violation("under PYTHONHASHSEED=%s: %s" % (hs, got["violation"]), case=c, hash_seed=hs)
             if got != ref:
-                raise Violation("final state under PYTHONHASHSEED=%s differs from PYTHONHASHSEED=%s" % (hs, seeds[0]),
-                                case=c, got=got, ref=ref)
+                where = "the set of schedules"
+                for r_got, r_ref in zip(got["results"], ref["results"]):
+                    parts = [p for p in sorted(r_ref[1]) if r_got[1].get(p) != r_ref[1][p]]
+                    if r_got[0] == r_ref[0] and parts:
+                        part = parts[0]
+                        at = sorted(x for x in set(r_got[1][part]) | set(r_ref[1][part])
+                                    if r_got[1][part].get(x) != r_ref[1][part].get(x))
+                        where = "schedule %s, %s of node %s: %r vs %r" % (
+                            r_got[0], part, at[0], r_got[1][part].get(at[0]), r_ref[1][part].get(at[0]))
+                        break
+                    if r_got[2] != r_ref[2]:
+                        where = "schedule %s, body invocations" % r_got[0]
+                        break
+                raise Violation("final state under PYTHONHASHSEED=%s differs from PYTHONHASHSEED=%s (%s)" % (
+                    hs, seeds[0], where), case=c, got=got, ref=ref)
             states = [r[1] for r in got["results"]]
             if any(s != states[0] for s in states):
                 raise Violation("schedules disagree under PYTHONHASHSEED=%s" % hs, case=c)
         if len(c["nodes"]) >= 4:
             nontrivial = True
-    return {"nontrivial": nontrivial, "labels": ["batch=%d" % len(batch), "hash_seeds=%d" % len(seeds)],
+        hs_labels.update(_report_labels(dict((k, dict((int(i), v) for i, v in d.items()))
+                                             for k, d in ref["results"][0][1].items())))
+    return {"nontrivial": nontrivial, "labels": ["batch=%d" % len(batch), "hash_seeds=%d" % len(seeds)] + sorted(hs_labels),
             "key": [dyn.digest(json.dumps(c, sort_keys=True)) for c in batch]}
 
 
@@ -916,7 +1044,7 @@ def strat_hs(tier):
     base = int(os.environ.get("VERIF_SEED", "1") or "1")
     seeds = hash_seeds(tier, base)
     size = 25 if tier == "quick" else 60
-    return st.fixed_dictionaries({"batch": st.lists(cases(tier), min_size=1, max_size=size),
+    return st.fixed_dictionaries({"batch": st.lists(cases(tier), min_size=size // 2, max_size=size),
                                   "hash_seeds": st.just(seeds)})
 
 
